@@ -294,6 +294,7 @@ fn gen_cfg_of(rng: &mut Rng, wf: bool) -> GenCfg {
         ("h".into(), 8),
         ("x".into(), 16),
         ("q".into(), 128),
+        ("t".into(), 24),
     ];
     g.addr_bits = if rng.chance(2, 3) { 32 } else { 64 };
     g.max_blocks = 8;
@@ -345,6 +346,13 @@ fn mutate_ops(rng: &mut Rng, g: &GenCfg, cfg: &mut ControlFlowGraph, addrs: &[u6
                 }
                 Operation::Load { .. } if !wf && rng.chance(1, 10) => {
                     Some(Operation::load(il::scalar("f", 1), addr_expr(rng, g)))
+                }
+                Operation::Load { dst, .. } if !wf && rng.chance(1, 10) => {
+                    // a 128-bit address, sometimes beyond 64 bits (TooManyAddressBits)
+                    let big = E::Constant(il::Constant::new_big(num_bigint::BigUint::from(1u8) << 64usize, 128));
+                    let q = E::Scalar(il::scalar("q", 128));
+                    let idx = if rng.chance(1, 2) { E::add(q, big).unwrap() } else { q };
+                    Some(Operation::load(dst.clone(), idx))
                 }
                 Operation::Store { .. } if !wf && rng.chance(1, 10) => {
                     Some(Operation::store(addr_expr(rng, g), gen_expr(rng, g, 1, 1)))
